@@ -147,10 +147,14 @@ def _transpose_sparse_matrix_on_disk_v2(
     indptr_idx = 0
     indices_idx = 0
     with h5py.File(output_path, output_mode) as dst:
+        if indices_size > 0:
+            indices_chunks = (min(indices_size, 1000000),)
+        else:
+            indices_chunks = None
         indices = dst.create_dataset(
             'indices',
             shape=(indices_size,),
-            chunks=(min(indices_size, 1000000),),
+            chunks=indices_chunks,
             dtype=indices_dtype)
         indptr = dst.create_dataset(
             'indptr',
